@@ -24,4 +24,10 @@ func main() {
 	}
 	dh.Corpus(r)
 	dh.Generate(r, 2, []int{1, 2, 3}, 4)
+	if r.Thorough() {
+		dh.Exhaustive(r, 2, 4, 10)
+		dh.Exhaustive(r, 3, 5, 6)
+	} else {
+		dh.Exhaustive(r, 2, 3, 7)
+	}
 }
